@@ -194,6 +194,20 @@ var added = []reflect.StructField{
 	{Name: "NewSlice", Type: reflect.TypeOf([]string(nil)), Tag: `json:"new_slice"`},
 	{Name: "NewMap", Type: reflect.TypeOf(map[string]int64(nil)), Tag: `json:"new_map"`},
 	{Name: "NewStruct", Type: reflect.TypeOf(PLeaf{}), Tag: `json:"new_struct"`},
+	// an embedded struct whose own fields are named like columns of the file: an embedded struct is an ordinary
+	// field named after its type, so nothing matches and it stays zero — wherever it sits in the target
+	{Name: "PEmb", Type: reflect.TypeOf(PEmb{}), Anonymous: true},
+	{Name: "PEmb", Type: reflect.TypeOf(PEmb{}), Anonymous: true},
+	// unexported fields are never decoded into, whatever their tag says
+	{Name: "hiddenA", PkgPath: "verifharness/props/c0304", Type: reflect.TypeOf(int64(0)), Tag: `json:"a"`},
+	{Name: "hiddenZ", PkgPath: "verifharness/props/c0304", Type: reflect.TypeOf(""), Tag: `json:"z"`},
+}
+
+// PEmb is embedded into projection targets; its field names collide with the writer's columns on purpose.
+type PEmb struct {
+	A int64  `json:"a"`
+	Z int64  `json:"z"`
+	B string `json:"b"`
 }
 
 func permsOf(n int) [][]int {
@@ -422,7 +436,7 @@ func init() {
 		ID:    "C04",
 		Level: "exploration",
 		Rule: func(tier string) string {
-			return "(1) codec level: for every schema node of the C03 universe, every datum and every legal serialisation (first 256 per datum in quick; thorough: all at depth<=1, first 20000 at depth 2, first 256 at depth 3) followed by a 3-byte tail, ReadBuf.Len() after Codec.Read, after reading through a record codec whose struct lacks the field (skip path), and after Codec.Skip must all equal the reference decoder's consumption; (2) file level: writer schemas record{a:X, b:Y, z:long} for every ordered pair (X,Y) of an 18-schema pool (primitives, fixed, arrays/maps incl. nested and nullable items, unions null-first/null-second/multi-branch, records, arrays of records; and, skip-only, a 130-branch union with every branch selected so that two-byte selectors occur) and the nested form record{r:record{a:X,b:Y}, z}; 3-record reference-written files in every encoding variant with <=2 writer-side deviations, rotating over block partitions and codecs; every projection of the full target struct: every subset of fields deleted × every permutation of the rest × {nothing, or one added field of kind int64/string/*int64/[]string/map[string]int64/struct}; oracle: remaining fields equal gv.Expect, added fields zero, same record count, nil error (the trailing sync check makes a mis-sized skip visible); non-trivial = a distinct (file, projection) or (encoding) that reached the comparison"
+			return "(1) codec level: for every schema node of the C03 universe, every datum and every legal serialisation (first 256 per datum in quick; thorough: all at depth<=1, first 20000 at depth 2, first 256 at depth 3) followed by a 3-byte tail, ReadBuf.Len() after Codec.Read, after reading through a record codec whose struct lacks the field (skip path), and after Codec.Skip must all equal the reference decoder's consumption; (2) file level: writer schemas record{a:X, b:Y, z:long} for every ordered pair (X,Y) of an 18-schema pool (primitives, fixed, arrays/maps incl. nested and nullable items, unions null-first/null-second/multi-branch, records, arrays of records; and, skip-only, a 130-branch union with every branch selected so that two-byte selectors occur) and the nested form record{r:record{a:X,b:Y}, z}; 3-record reference-written files in every encoding variant with <=2 writer-side deviations, rotating over block partitions and codecs; every projection of the full target struct: every subset of fields deleted × every permutation of the rest × {nothing, or one added field of kind int64/string/*int64/[]string/map[string]int64/struct, an embedded struct whose field names collide with the columns (before and after the kept fields), an unexported field tagged with a column's name}; oracle: remaining fields equal gv.Expect, added fields zero, same record count, nil error (the trailing sync check makes a mis-sized skip visible); non-trivial = a distinct (file, projection) or (encoding) that reached the comparison"
 		},
 		Assumptions: []string{
 			"the expected value of every remaining field is computed by gv.Expect from the datum (stronger than, and implying, the differential 'same as the full decode')",
